@@ -467,6 +467,15 @@ func verifDir() string {
 // RealStderr is the process's real standard error (workers redirect os.Stderr).
 var RealStderr = os.Stderr
 
+// outDir is where evidence and replay files go (VERIF_OUT lets the mutant self-test keep
+// its runs away from the committed evidence).
+func outDir() string {
+	if d := os.Getenv("VERIF_OUT"); d != "" {
+		return d
+	}
+	return verifDir()
+}
+
 // Main is the entry point of every check binary.
 func Main(spec Spec) {
 	tier := flag.String("tier", "quick", "quick|thorough")
@@ -782,7 +791,7 @@ func report(spec Spec, scs []*Scenario, items []item, results []*Result, tier st
 		"violations":  len(viol),
 	}
 	b, _ := json.MarshalIndent(ev, "", " ")
-	evPath := filepath.Join(verifDir(), "evidence", spec.Property+".json")
+	evPath := filepath.Join(outDir(), "evidence", spec.Property+".json")
 	os.MkdirAll(filepath.Dir(evPath), 0o755)
 	if err := os.WriteFile(evPath, b, 0o644); err != nil {
 		fmt.Fprintln(os.Stderr, "ENGINE ERROR: cannot write evidence:", err)
@@ -859,7 +868,7 @@ func confirmAndWrite(spec Spec, scs []*Scenario, f Finding) (string, bool) {
 			rf.Trace = c.Trace
 		}
 	}
-	dir := filepath.Join(verifDir(), "replays", spec.Property)
+	dir := filepath.Join(outDir(), "replays", spec.Property)
 	os.MkdirAll(dir, 0o755)
 	path := filepath.Join(dir, sanitize(f.Key)+".json")
 	b, _ := json.MarshalIndent(rf, "", " ")
